@@ -8,7 +8,7 @@ props = [json.loads(l) for l in open(os.path.join(HERE, "..", "properties.jsonl"
 ids = [p["id"] for p in props]
 checks = []
 for pid in ids:
-    if pid not in md.CLAIMS:
+    if pid not in md.CLAIMS or not os.path.exists(os.path.join(HERE, "props", pid.lower() + ".py")):
         continue
     c = md.CLAIMS[pid]
     checks.append({
@@ -23,7 +23,7 @@ for pid in ids:
         "technique": c["technique"],
     })
 na = [{"property_id": pid, "reason": md.NOT_APPLICABLE.get(pid, "not claimed yet: model/theorems for this property are still being built (see DESIGN.md §10 status)")}
-      for pid in ids if pid not in md.CLAIMS]
+      for pid in ids if pid not in [c["property_id"] for c in checks]]
 man = {
     "version": 1,
     "setup_cmd": "sh tools/setup.sh",
